@@ -5,8 +5,8 @@ namespace TaRs.Gen.ExponentialMovingAverage
 open TaRs TaRs.Rs
 variable {F : Type} [Scalar F]
 
-/-- smoothing factor as the code computes it: `2.0 / (period + 1) as f64` -/
-def alpha (p : Nat) : F := Scalar.div (Scalar.lit 2 0) (Scalar.ofNat (p + 1))
+/-- smoothing factor as the code computes it: `2.0 / (period as f64 + 1.0)` -/
+def alpha (p : Nat) : F := Scalar.div (Scalar.lit 2 0) (Scalar.add (Scalar.ofNat p) (Scalar.lit 1 0))
 
 def fresh (p : Nat) : ExponentialMovingAverage F :=
   { period := p, k := alpha p, current := Scalar.lit 0 0, is_new := true }
@@ -16,19 +16,15 @@ structure WF (s : ExponentialMovingAverage F) : Prop where
   pos : 0 < s.period
   kdef : s.k = alpha s.period
 
-/-- `new` as the code is today: `period + 1` is evaluated in `usize`, so `usize::MAX` panics
-    (with overflow checks).  See Props/C11 for what the property demands. -/
+/-- `new` rejects exactly period 0 and never panics: no `usize` arithmetic is left in it
+    (before the repair `period + 1` overflowed for `usize::MAX`). -/
 theorem new_eq (p : Nat) :
     (new p : Res (ExponentialMovingAverage F)) =
-      if p = 0 then .err .InvalidParameter
-      else if p + 1 ≤ usizeMax then .ok (fresh p) else .panic := by
+      if p = 0 then .err .InvalidParameter else .ok (fresh p) := by
   unfold new
   cases p with
   | zero => rfl
-  | succ n =>
-    by_cases h : n + 1 + 1 ≤ usizeMax
-    · simp [uadd_eq _ _ h, h, fresh, alpha, bind, Res.bind]
-    · simp [uadd_none _ _ (by omega : usizeMax < n + 1 + 1), h, bind, Res.bind]
+  | succ n => simp [fresh, alpha, bind, Res.bind]
 
 theorem fresh_wf (p : Nat) (hp : 0 < p) : WF (fresh p : ExponentialMovingAverage F) := ⟨hp, rfl⟩
 
@@ -71,6 +67,6 @@ theorem display_eq (fmt : F → String) (s : ExponentialMovingAverage F) :
 theorem default_eq : (default_ : Option (ExponentialMovingAverage F)) = some (fresh 9) := by
   unfold default_
   rw [new_eq]
-  simp [unwrap, usizeMax]
+  simp [unwrap]
 
 end TaRs.Gen.ExponentialMovingAverage
